@@ -28,6 +28,9 @@ def evaluate(bdir, confirm):
         rc, out = S.sh("patch -p1 -s < %s" % os.path.join(bdir, "patch.diff"), cwd=d)
         if rc != 0:
             meta["applies"] = False
+            for k_ in ("checks", "false_alarms", "analysis_broken"):
+                meta[k_] = {} if k_ == "checks" else []
+            meta["note"] = "no longer applies to the current tree (the code it reshapes was repaired since)"
             json.dump(meta, open(meta_p, "w"), indent=1)
             return meta
         meta["applies"] = True
